@@ -162,6 +162,7 @@ func (s *Store) SetCollection(name string, compare KeyCompare) *Collection {
 			cnew.root = cold.rootAddRef()
 		}
 		coll[name] = cnew
+		verifYield(15) // VerifSiteSetCollCAS
 		if s.casColl(orig, &coll) {
 			cold.closeCollection()
 			return cnew
@@ -213,6 +214,7 @@ func (s *Store) RemoveCollection(name string) {
 		coll := copyColl(*(*map[string]*Collection)(orig))
 		cold := coll[name]
 		delete(coll, name)
+		verifYield(16) // VerifSiteRemoveCollCAS
 		if s.casColl(orig, &coll) {
 			cold.closeCollection()
 			return
@@ -248,6 +250,7 @@ func (s *Store) Flush() error {
 	for _, name := range cnames {
 		c := coll[name]
 		rnls[name] = c.rootAddRef()
+		verifYield(11) // VerifSiteFlushPin
 	}
 	defer func() {
 		for _, name := range cnames {
@@ -258,7 +261,9 @@ func (s *Store) Flush() error {
 		if err := coll[name].write(rnls[name].root); err != nil {
 			return err
 		}
+		verifYield(12) // VerifSiteFlushWrite
 	}
+	verifYield(13) // VerifSiteFlushRoots
 	return s.writeRoots(rnls)
 }
 
@@ -312,6 +317,7 @@ func (s *Store) Snapshot() (snapshot *Store) {
 			rootLock: collOrig.rootLock,
 			root:     collOrig.rootAddRef(),
 		}
+		verifYield(14) // VerifSiteSnapshotColl
 	}
 	return res
 }
